@@ -49,3 +49,20 @@ Proof.
     + cbn [heap]. destruct data; [|exact Hrc]. now apply set_data_self.
     + cbn [heap]. destruct data; [rewrite set_data_length|]; exact Hlt.
 Qed.
+
+(* a call through a host-built YaqlInterface leaves EVERY context of the host's chain as it was *)
+Lemma iface_call_host_frame fuel host c pos kw e s' r :
+  iface_call fuel host c pos kw e = (s', r) ->
+  (exists h l, heap s' = host ++ h /\ log s' = l)
+  /\ forall i, i < length host -> nth_error (heap s') i = nth_error host i.
+Proof.
+  unfold iface_call. destruct (alloc _ _) as [s1 c1] eqn:A. intro H.
+  pose proof (alloc_ext _ _ _ _ A) as E0.
+  assert (E : ext {| heap := host; log := [] |} s').
+  { destruct (eval fuel s1 c1 e) as [s2 r2] eqn:E2. apply eval_ext in E2.
+    destruct r2; try (inversion H; subst; eapply ext_trans; eassumption).
+    apply finalize_ext in H. eapply ext_trans; [exact E0|]. eapply ext_trans; eassumption. }
+  split.
+  - destruct E as (h & l & Hh & Hl). exists h, l. cbn in Hh, Hl. split; assumption.
+  - intros i Hi. apply (ext_old_context _ _ i E). exact Hi.
+Qed.
